@@ -57,7 +57,7 @@ func openAny(t *rapid.T, r *mgrRig, log *[]string, label string, tid datatransfe
 func addVouchers(t *rapid.T, r *mgrRig, c *mchan, label string) {
 	n := rapid.IntRange(0, 2).Draw(t, label+".extraVouchers")
 	for i := 0; i < n; i++ {
-		v := datatransfer.TypedVoucher{Type: "T/a", Voucher: basicnode.NewString(fmt.Sprintf("extra-%d-%s", i, rapid.StringMatching("[a-z]{1,3}").Draw(t, label+".extraVoucher")))}
+		v := datatransfer.TypedVoucher{Type: rapid.SampledFrom([]datatransfer.TypeIdentifier{"T/a", "T/a", "T/b", "T/other"}).Draw(t, label+".extraVoucherType"), Voucher: basicnode.NewString(fmt.Sprintf("extra-%d-%s", i, rapid.StringMatching("[a-z]{1,3}").Draw(t, label+".extraVoucher")))}
 		if c.selfInit() {
 			_ = r.mgr.SendVoucher(bg(), c.chid, v)
 		} else {
